@@ -79,6 +79,7 @@ fn fam_fd(bytes: &[u8], ctx: &Ctx) -> CaseInfo {
     cfg.max_constraints = 8;
     cfg.lo = -6;
     cfg.hi = 9;
+    cfg.non_int_eq = true;
     let c = gen_case(&mut s, &cfg);
     // FD goals are generic in the goal kind, so both builds are exercised
     check(&c.program(), &[Mode::Bfs, Mode::Dfs], "fd", ctx)
